@@ -226,6 +226,15 @@ func Main(tb TB, e Engine) {
 	const maxClasses = 6
 	shrinkBudget := time.Duration(envInt("VERIF_SHRINK_MS", 20000)) * time.Millisecond
 
+	var evlog *os.File
+	if p := os.Getenv("VERIF_EVENTLOG"); p != "" {
+		f, err := os.Create(p)
+		if err != nil {
+			tb.Fatalf("eventlog: %v", err)
+		}
+		evlog = f
+		defer f.Close()
+	}
 	for i := uint64(0); ; i++ {
 		if maxRuns > 0 && int64(i) >= maxRuns {
 			break
@@ -239,6 +248,29 @@ func Main(tb TB, e Engine) {
 		out.Runs++
 		for k, v := range res.Counters {
 			out.Counters[k] += v
+		}
+		if evlog != nil {
+			// Determinism self-test: one line per run with everything that must be
+			// identical when the same sub-seed is run again (never drawn from, never
+			// timed). Physical counters (fs_*, ms_*) are excluded.
+			var sb strings.Builder
+			for _, c := range t.Rec {
+				fmt.Fprintf(&sb, "%s/%d/%d;", c.Label, c.N, c.V)
+			}
+			cls := ""
+			if res.Violation != nil {
+				cls = res.Violation.Class
+			}
+			var ck []string
+			for k, v := range res.Counters {
+				if strings.HasPrefix(k, "fs_") || strings.HasPrefix(k, "ms_") || strings.HasPrefix(k, "crash_") || strings.HasPrefix(k, "images_") || strings.HasPrefix(k, "nested_") || strings.HasPrefix(k, "post_") || k == "sim_seconds" {
+					continue
+				}
+				ck = append(ck, fmt.Sprintf("%s=%d", k, v))
+			}
+			sort.Strings(ck)
+			fmt.Fprintf(evlog, "{\"run\":%d,\"tape\":%q,\"ntape\":%d,\"digest\":%q,\"class\":%q,\"nontrivial\":%v,\"infra\":%v,\"counters\":%q}\n",
+				i, shortHash(sb.String()), len(t.Rec), res.Digest, cls, res.Nontrivial, res.Infra != "", shortHash(strings.Join(ck, ",")))
 		}
 		if t.Overflow() > 0 {
 			out.Counters["tape_overflow_runs"]++
